@@ -188,8 +188,8 @@ inductive Op
   | divUnsafe                      -- [y, x]   x / y without the guard (not used by the current code)
   | copy                           -- [x]      x
   | unitMap                        -- [x]      zeros_like(x) with real part 1
-  | kthModulus                     -- [x]      −kthvalue(−|x| of the non-zero coils, k)   (precondition: some coil is
-                                   --          non-zero — `torch.kthvalue` raises on an empty tensor; the model yields 0)
+  | kthModulus                     -- [x]      −kthvalue(−|x| of the non-zero coils, k)   (when every entry is zero
+                                   --          `torch.kthvalue` raises on an empty tensor: `execE` in PipelinePrePost.lean)
   | maxModulus                     -- [x]      amax |x|
   | constOne                       -- [x]      1.0
   | sumCoils                       -- [x]      Σ_coil x  (complex)
@@ -403,12 +403,20 @@ def evalThr (S : Ops K) (eps : K) (p : ThrPred) (v m : K) : Bool :=
 
 def b2k (S : Ops K) (b : Bool) : K := if b then S.one else S.zero
 
-/-- coils whose entries do not sum to zero (`data[_].sum(dim=…).bool()`) -/
+/-- coils with at least one non-zero entry (`(data[_] != 0).flatten(1).any(dim=1)`, the repaired test) -/
 def nonzeroCoils (S : Ops K) (chunk : Nat) : Nat → List K → List K
   | 0, _ => []
   | n + 1, xs =>
       let c := xs.take chunk
-      (if S.isZero (sumList S c) then [] else c) ++ nonzeroCoils S chunk n (xs.drop chunk)
+      (if c.all S.isZero then [] else c) ++ nonzeroCoils S chunk n (xs.drop chunk)
+
+/-- the pinned (pre-repair) test: coils whose entries do not *sum* to zero (`data[_].sum(dim=…).bool()`) — a coil
+whose entries cancel was dropped, and rounding noise decided when the sum was theoretically zero -/
+def nonzeroCoilsPinned (S : Ops K) (chunk : Nat) : Nat → List K → List K
+  | 0, _ => []
+  | n + 1, xs =>
+      let c := xs.take chunk
+      (if S.isZero (sumList S c) then [] else c) ++ nonzeroCoilsPinned S chunk n (xs.drop chunk)
 
 /-- complex product `conj(s)·x` summed over coils -/
 def conjMul (S : Ops K) : List K → List K → List K
